@@ -237,7 +237,8 @@ func ncSetup(version string, open bool) func(c *OpCtx) error {
 			if strings.Contains(req.Payload, "establish-subscription") {
 				return `<rpc-reply xmlns="` + dev.NSBase + `" message-id="` + req.ID + `"><subscription-result xmlns="urn:x">notif-bis:ok</subscription-result><subscription-id xmlns="urn:x">77</subscription-id></rpc-reply>`, dev.ReplyNow
 			}
-			return dev.OKReply(req.ID), dev.ReplyNow
+			// <n> tells replies to different requests apart even when their message-ids collide
+			return `<rpc-reply xmlns="` + dev.NSBase + `" message-id="` + req.ID + `"><ok/><n>` + fmt.Sprint(i) + `</n></rpc-reply>`, dev.ReplyNow
 		}
 		c.Tr = dev.NewFake(c.E, c.NC)
 		c.NC.Out = c.Tr.Inject
@@ -426,7 +427,7 @@ func Ops() []OpDef {
 			if v == "1.0" && o.name != "Get" && o.name != "EditConfig" && o.name != "EstablishPeriodicSubscription" {
 				continue // the send path is shared; 1.0 is covered for three representatives
 			}
-			add(OpDef{Name: "netconf." + o.name + "/" + v, Kind: "nc", Override: o.ov, ErrClass: "timeout", Setup: nc,
+			add(OpDef{Name: "netconf." + o.name + "/" + v, Kind: "nc", Override: o.ov, ErrClass: "timeout", Setup: nc, Recovery: true,
 				Call: func(c *OpCtx, ov time.Duration) (string, error) {
 					c.Begin()
 					return nres(o.f(c.D, tmo(ov)))
